@@ -133,6 +133,19 @@ theorem comments_in_order_at_top (q : Quirks) (ops : Ops σ) (c : SelCtx σ) (ts
     have := ih (root ++ [.comment t])
     simp_all [emitBody, emitItem, pushComment, pushCommentAux]
 
+def isComment : Entry σ → Bool
+  | ⟨_, _, .comment _⟩ => true
+  | _ => false
+
+/-- `expanded_comments_in_order` (specification without media merging, ARBITRARY programs): the
+comments of the output, in document order and with their selector/at-rule context, are exactly
+the comments of the evaluation log in source order (`C20.bubble_preserves_order`). -/
+theorem expanded_comments_in_order (q : Quirks) (hh : q.atRuleHoists = false) (hm : q.mediaInMediaNested = true)
+    (hs : q.closeSwallows = false) (ops : Ops σ) (p : List (Core σ)) (st : St σ)
+    (h : emitTop q ops p = .ok st) :
+    (flatItems [] st.root).filter isComment = (logBody q ops {} p []).filter isComment := by
+  rw [(C20.bubble_preserves_order q hh hm hs ops p st h).1]
+
 /-- comments of an output tree in document order -/
 def bodyComments : List (BodyItem Nat) → List Nat
   | [] => []
